@@ -78,7 +78,7 @@ type Case struct {
 	// Single: path of one file of the case (with a selected extension) that is afterwards scanned
 	// on its own, the file's path being given instead of the directory.
 	Single string `json:"single,omitempty"`
-	// PathForm: how the directory is named. API: 0 absolute, 1 absolute with a trailing slash.
+	// PathForm: how the directory is named. API: absolute, with a trailing slash when 3.
 	// CLI: 0 "src", 1 absolute, 2 "./src", 3 "src/", 4 "." with the directory as working
 	// directory, 5 no -p at all (the default is ".") with the directory as working directory.
 	PathForm int `json:"path_form,omitempty"`
@@ -221,7 +221,7 @@ func guardComment(s Seg) string {
 		if unicode.IsSpace(r) || r == ':' || r == '(' {
 			return "message starts with blank, colon or parenthesis (ambiguous)"
 		}
-		if s.Sep == "" && s.Gap == "" {
+		if s.Sep == "" && s.Gap == "" && !strings.ContainsRune(punctAfterMark, r) {
 			return "mark directly followed by text (ambiguous: TODOS)"
 		}
 	}
@@ -560,6 +560,16 @@ func relTo(root, name string) string {
 
 func precheck(c Case) (pbt.Verdict, bool) {
 	if msg := guardCase(c); msg != "" {
+		if i := strings.Index(msg, ": "); i >= 0 && strings.Contains(msg[:i], ".") {
+			msg = msg[i+2:] // drop the file name
+		}
+		if i := strings.Index(msg, ": "); i >= 0 && strings.HasPrefix(msg, "segment ") {
+			msg = msg[i+2:]
+		}
+		if len(msg) > 60 {
+			msg = msg[:60]
+		}
+		pbt.Count("outside_domain: "+msg, 1)
 		return pbt.Verdict{Skip: true, Classes: []string{"outside_domain"}}, false
 	}
 	for _, f := range c.Files {
@@ -610,7 +620,7 @@ func checkAPI(c Case) pbt.Verdict {
 	root := filepath.Join(scratch, "src")
 	writeCase(c, root)
 	dirArg := root
-	if c.PathForm == 1 {
+	if c.PathForm == 3 {
 		dirArg = root + string(filepath.Separator)
 	}
 	// the sequence of scans: (what is scanned, with which filters, the case that says what to expect)
@@ -843,6 +853,8 @@ func classify(c Case) pbt.Verdict {
 					add(s.K == kBlock && strings.Contains(s.Body, "\n"), "multi_line_block_todo")
 					add(strings.IndexFunc(s.Body, func(r rune) bool { return r > 127 }) >= 0, "non_ascii_message")
 					add(strings.Contains(s.Body, "*") && s.K != kBlock, "asterisk_in_line_or_hash_message")
+					add(s.Sep == "" && s.Gap == "" && s.Body != "", "punctuation_directly_after_mark")
+					add(line >= 10, "todo_on_line_10_or_later")
 					add(lastTodoLine == line, "two_todos_on_one_line")
 					lastTodoLine = line
 				} else {
@@ -861,6 +873,12 @@ func classify(c Case) pbt.Verdict {
 					add(s.K == kStr, "string_literal_decoy")
 					add(s.K == kChr, "char_literal_decoy")
 				}
+			case s.K == kTpl:
+				if reMention.MatchString(s.T) || strings.Contains(s.T, "//") || strings.Contains(s.T, "/*") || strings.Contains(s.T, "#") {
+					decoys++
+					add(true, "template_literal_decoy")
+				}
+				add(strings.Contains(s.T, "\n"), "multi_line_template_literal")
 			case s.K == kOpen:
 				add(true, "unterminated_block_comment_at_end")
 			case s.K == kCode:
@@ -878,6 +896,30 @@ func classify(c Case) pbt.Verdict {
 	}
 	add(v.NonTrivial, "reportable_and_decoy_in_one_file")
 	add(len(c.Files) > 1, "several_files")
+	add(len(c.Files) > 3, "more_than_3_files")
+	bases := map[string]bool{}
+	for _, f := range c.Files {
+		parts := strings.Split(f.Path, "/")
+		add(bases[parts[len(parts)-1]], "same_file_name_in_two_directories")
+		bases[parts[len(parts)-1]] = true
+		for _, d := range parts[:len(parts)-1] {
+			add(strings.HasPrefix(d, "."), "hidden_directory")
+			add(d == "vendor" || d == "node_modules" || d == "build" || d == "target" || d == "testdata", "directory_that_tools_often_skip")
+			for _, e := range c.Filters {
+				add(strings.HasSuffix(d, e), "directory_named_like_a_selected_file")
+			}
+		}
+		add(len(parts) > 4, "deep_directory")
+	}
+	add(c.Twice, "scanned_twice")
+	add(len(c.Filters2) > 0, "second_scan_with_other_filters")
+	add(c.Single != "", "single_file_path")
+	add(c.PathForm != 0, "path_respelled")
+	add(c.OmitExt, "default_extension_list(-e omitted)")
+	add(c.LongFlags, "long_flags")
+	for _, e := range c.Filters {
+		add(!strings.Contains(strings.Join(selExts, ",")+",", e+","), "filter_outside_the_default_list")
+	}
 	sort.Strings(canon)
 	v.Canon = strings.Join(canon, "\x00")
 	return v
@@ -1133,25 +1175,45 @@ func genSegs(ch chooser, maxSegs int) []Seg {
 	return segs
 }
 
-func genCase(ch chooser, maxFiles, maxSegs int) Case {
-	c := Case{}
-	// filters: the CLI's default list, or a subset, possibly with an extra extension
+// genFilters: the CLI's default list, or a subset, possibly with an extra extension.
+func genFilters(ch chooser) []string {
+	var out []string
 	switch ch.n(3) {
 	case 0:
-		c.Filters = append(c.Filters, selExts...)
+		out = append(out, selExts...)
 	default:
 		k := 1 + ch.n(3)
 		off := ch.n(len(selExts) - 1)
 		for i := 0; i < k; i++ {
-			c.Filters = append(c.Filters, selExts[(off+i*3)%len(selExts)])
+			out = append(out, selExts[(off+i*3)%len(selExts)])
 		}
 		if ch.n(5) == 0 {
-			c.Filters = append(c.Filters, pick(ch, []string{".c", ".rb", ".txt"}))
+			out = append(out, pick(ch, extraExts))
 		}
 	}
-	c.Filters = dedup(c.Filters)
+	return dedup(out)
+}
+
+func genCase(ch chooser, maxFiles, maxSegs int) Case {
+	c := Case{}
+	c.Filters = genFilters(ch)
 	nFiles := 1 + ch.n(maxFiles-1)
+	if ch.n(7) == 7 {
+		nFiles += 2
+	}
 	used := map[string]bool{}
+	clash := func(path string) bool { // taken, or file and directory at once
+		if used[path] {
+			return true
+		}
+		for u := range used {
+			if strings.HasPrefix(u, path+"/") || strings.HasPrefix(path, u+"/") {
+				return true
+			}
+		}
+		return false
+	}
+	dotDirs := dotDirsAllowed()
 	for i := 0; i < nFiles; i++ {
 		var ext string
 		switch k := ch.n(9); {
@@ -1163,20 +1225,54 @@ func genCase(ch chooser, maxFiles, maxSegs int) Case {
 			ext = pick(ch, selExts)
 		}
 		dir := pick(ch, dirList)
-		name := pick(ch, stemList)
-		path := name + ext
-		if dir != "" {
-			path = dir + "/" + path
-		}
-		for used[path] {
-			name += "x"
-			path = name + ext
-			if dir != "" {
-				path = dir + "/" + path
+		if !dotDirs {
+			for _, part := range strings.Split(dir, "/") {
+				if strings.Contains(strings.TrimPrefix(part, "."), ".") && part != "v1.2" {
+					dir = "pkg"
+				}
 			}
+		}
+		name := pick(ch, stemList)
+		mk := func() string {
+			if dir != "" {
+				return dir + "/" + name + ext
+			}
+			return name + ext
+		}
+		path := mk()
+		for clash(path) {
+			name += "x"
+			path = mk()
 		}
 		used[path] = true
 		c.Files = append(c.Files, SrcFile{Path: path, Segs: genSegs(ch, maxSegs)})
+	}
+	// sequences and spellings (0 = the plain variant: one scan of the directory)
+	if ch.n(5) == 5 {
+		c.Twice = true
+	}
+	if ch.n(4) == 4 {
+		c.Filters2 = genFilters(ch)
+	}
+	if ch.n(4) == 4 {
+		var sel []string
+		for _, f := range c.Files {
+			if selected(f.Path, c.Filters) {
+				sel = append(sel, f.Path)
+			}
+		}
+		if len(sel) > 0 {
+			c.Single = pick(ch, sel)
+		}
+	}
+	if ch.n(1) == 1 {
+		c.PathForm = ch.n(5)
+	}
+	if strings.Join(c.Filters, ",") == strings.Join(selExts, ",") && ch.n(1) == 1 {
+		c.OmitExt = true
+	}
+	if ch.n(3) == 3 {
+		c.LongFlags = true
 	}
 	return c
 }
@@ -1209,6 +1305,27 @@ func genCLI(t *rapid.T) Case {
 	return genCase(rapidChooser{t}, 3, 14)
 }
 
+// genDefaults: `coca todo` without -e. One file for every extension of the documented default
+// list (each starting with a reportable comment, so that a dropped extension shows) plus files
+// with other extensions; the directory is named in one of the six ways.
+func genDefaults(t *rapid.T) Case {
+	ch := rapidChooser{t}
+	c := Case{Filters: append([]string{}, selExts...), OmitExt: true}
+	head := []Seg{{K: kLine, Lead: " ", Mark: "TODO", Sep: ":", Gap: " ", Body: "first"}, {K: kWs, T: "\n"}}
+	exts := append(append([]string{}, selExts...), pick(ch, otherExts), pick(ch, otherExts))
+	for i, ext := range exts {
+		dir := pick(ch, []string{"", "pkg", "a/b/c/d", ".hidden", "vendor/lib"})
+		path := fmt.Sprintf("%s%d%s", pick(ch, stemList), i, ext)
+		if dir != "" {
+			path = dir + "/" + path
+		}
+		c.Files = append(c.Files, SrcFile{Path: path, Segs: append(append([]Seg{}, head...), genSegs(ch, 6)...)})
+	}
+	c.PathForm = ch.n(5)
+	c.LongFlags = ch.n(3) == 3
+	return c
+}
+
 func init() {
 	pbt.SetProperty("C17")
 	pbt.Describe("rapid-generated directories of 1-3 files; a file is 0-12 (thorough 0-18) segments: code tokens (identifiers incl. TODO/FIXME, numbers, operators incl. / and *, separators), Java-style string literals and one-character char literals containing //, /*, */, #, TODO, escapes, line / block / hash comments, white space (incl. CRLF), optionally an unterminated block comment as last segment. Comment text = blanks + [TODO|FIXME in 10 letter cases] + ['' | ':' | '(name)' | '(name):'] + blanks + text built from hostile pieces (comment markers, quotes, parentheses, colons, non-ASCII, words that mention TODO/FIXME, in block comments line breaks with and without ' * ' decoration); also empty, one-character and blanks-only comments. File extensions from the selected list, from the CLI's default list, and near misses (.javax, .java.txt, .java~, .kts, .gradle.kts ...). Expected entries (file, start line, assignee, message) are computed from the segments. Non-trivial = a file with a selected extension holds at least one reportable comment and at least one decoy (literal containing a comment marker or TODO/FIXME, or comment mentioning TODO/FIXME later); distinct = hash of the sorted (selected?, extension, text) of the files.",
@@ -1217,7 +1334,8 @@ func init() {
 		"entries on or after the line of an unterminated block comment at the end of a file are not judged (only crash-freedom)",
 		"every generated text is also lexed with the shipped CommentLexer under an error listener; a text it rejects is skipped and counted (expected: none)")
 	pbt.Register("api", 5000, 50000, genAPI, checkAPI)
-	pbt.Register("cli", 40, 60, genCLI, checkCLI)
+	pbt.Register("cli", 50, 60, genCLI, checkCLI)
+	pbt.Register("cli_default", 4, 6, genDefaults, checkCLI)
 }
 
 func TestProp(t *testing.T)   { pbt.Main(t) }
